@@ -39,8 +39,8 @@ Definition key_spec (k : mkey) (t : ty) : Z :=
   match k with
   | KExtentBytes => Z.of_nat (extent t) / 8
   | KBufferBytes => Z.of_nat (bmax t) / 8
-  | KCap => src_val SrcCapacity t
-  | KUnionCount => src_val SrcFieldCount t
+  | KCap => array_capacity t
+  | KUnionCount => option_count t
   | KPortId | KFullName | KConst => -1
   end.
 
@@ -78,6 +78,15 @@ Definition required_exports : list (mtarget * mkey) :=
 Definition table_ok : bool :=
   forallb (fun x => good_exp (ex_key x) (ex_exp x)) exported_table
   && forallb (fun '(tg, k) => negb (match exports_of tg k with [] => true | _ => false end)) required_exports.
+
+(* ---- boolean constants (translated BooleanType branch of filter_literal), names, Python class constants ---- *)
+Definition bool_token_denotes (s : str) : option bool :=
+  if lstr_eqb s [116; 114; 117; 101]%N then Some true else if lstr_eqb s [102; 97; 108; 115; 101]%N then Some false else None.
+
+Definition c_full_name (m : tmeta) : option str := render_pieces (name_attr m) c_full_name_tpl.
+Definition c_full_name_and_version (m : tmeta) : option str := render_pieces (name_attr m) c_full_name_and_version_tpl.
+Definition py_const_token (v : cvalue) : option str :=
+  render_pieces (const_attr v) (match v with CVBool _ => py_bool_const_tpl | CVInt _ => py_int_const_tpl | CVFrac _ _ => py_float_const_tpl end).
 
 (* ---- emit conditions ---- *)
 Definition emits_of (tg : mtarget) (k : mkey) : list (list mcond) :=
@@ -142,15 +151,6 @@ Definition ser_model (cc : capcheck) (t : ty) (v : val) (cap_bytes : nat) : opti
   | Some true => Some (Err ETooSmall)
   | Some false => Some (enc_body t v)
   end.
-
-(* the code walker with the buffer it leaves behind: untouched when the capacity check refuses (the check precedes every write),
-   the written buffer on success, unspecified (None) when another error interrupts the walk *)
-Definition walk_ser_st (P : prims) (t : ty) (v : val) (buf : list bool) (cap_bytes : nat) : res (list bool) * option (list bool) :=
-  if (8 * cap_bytes <? bmax t)%nat then (Err ETooSmall, Some buf)
-  else match ws_body P t v buf 0 with
-       | Ok (b, o) => (Ok (firstn (8 * (o / 8)) b), Some b)
-       | Err e => (Err e, None)
-       end.
 
 (* ---- constants ---- *)
 Definition int_pty (unsigned : bool) (w : Z) : pty := mk_pty (if unsigned then KUInt else KSInt) w.
